@@ -79,7 +79,7 @@ Inductive label :=
 Definition init (c : cfg) : st :=
   mkSt false false
        (match f_loop c with LoopAtNew => [(0%nat, LIdle)] | _ => [] end)
-       1 [] [] [] [] false [] 0 [].
+       1 [] (match f_table c with TShared => [(0, 0%nat)] | _ => [] end) [] [] false [] 0 [].
 
 (* ---- small list helpers (kept here so that proofs can unfold them) ---- *)
 Definition key (c : cfg) (x : Z) : Z := match f_table c with TShared => 0 | _ => x end.
@@ -163,7 +163,7 @@ Definition bind_table (c : cfg) (x : Z) (t : list (Z * nat)) : list (Z * nat) :=
   end.
 
 Definition unbind_table (c : cfg) (x : Z) (t : list (Z * nat)) : list (Z * nat) :=
-  if f_unbind c then tremove (key c x) t else t.
+  if f_unbind c then match f_table c with TShared => [(0, 0%nat)] | _ => tremove x t end else t.
 
 Definition send_or_park (c : cfg) (s : st) (t : nat) (x : Z) (is_bind : bool) : st :=
   match do_send c s x with
